@@ -1,15 +1,14 @@
-(* C28 — proofs about Model/ReaderSplit.v.
+(* C28 — proofs about Model/ReaderSplit.v (reader as of /repo e4074d6).
 
    Main results
-     decode_stream_good   : for scripts made of (k>0 bytes, nil) responses optionally
-                            followed by one (0, io.EOF), the CBE decoder delivers
-                            exactly what it delivers from memory (all documents,
-                            valid or not, any MaxDocumentSizeBytes);
-     cte_stream_all       : the CTE entry point is independent of the script for
-                            EVERY script that is a reader (zero reads and data+EOF included);
-     ce_stream_good       : the universal entry points on the same script class;
-     refutations          : a (n>0, io.EOF) response and a (0, nil) response each make
-                            the CBE decoder deliver something else than from memory;
+     decode_stream_all    : for EVERY script that is a reader (io.EOF on the last
+                            response at most; zero-length reads and data+EOF anywhere)
+                            the CBE decoder delivers exactly what it delivers from
+                            memory (all documents, valid or not, any MaxDocumentSizeBytes);
+     cte_stream_all       : the same for the CTE entry points;
+     ce_stream_all        : the same for the universal entry points, for scripts with
+                            fewer than 100 zero-length reads (bufio gives up with
+                            io.ErrNoProgress after 100 consecutive empty reads);
      decode_never_hangs   : the fuel of the model is never exhausted (no script at all
                             makes the model answer SHang). *)
 From CE Require Import Model.ReaderSplit.
@@ -90,387 +89,8 @@ Proof. rewrite !lenN_length, app_length. lia. Qed.
 Local Arguments takeN : simpl never.
 Local Arguments dropN : simpl never.
 
-(* ------------------------------------------------------------------ *)
-(* good sources                                                         *)
-(* ------------------------------------------------------------------ *)
-
-Definition good_src (s : src) : bool :=
-  match s with
-  | Direct sc => good_script sc
-  | Buffered _ pend sc => negb pend && good_script sc
-  end.
-
-Lemma good_script_cases bs e rest :
-  good_script ((bs, e) :: rest) = true ->
-  (bs = [] /\ e = true /\ rest = []) \/ (e = false /\ bs <> [] /\ good_script rest = true).
-Proof.
-  destruct bs as [|x bs], e, rest as [|r rest]; simpl; intro H; try discriminate;
-    try (left; repeat split; reflexivity);
-    right; repeat split; try discriminate; try reflexivity; exact H.
-Qed.
-
-Lemma good_script_zeros sc : good_script sc = true -> script_zeros sc = O.
-Proof.
-  induction sc as [|[bs e] rest IH]; [reflexivity|]. intro H.
-  apply good_script_cases in H as [(-> & -> & ->) | (-> & Hbs & Hr)]; [reflexivity|].
-  unfold script_zeros in *. simpl. destruct bs; [congruence|]. apply IH, Hr.
-Qed.
-
-Lemma good_src_zeros s : good_src s = true -> src_zeros s = O.
-Proof.
-  destruct s as [sc | buf pend sc]; simpl; intro H.
-  - now apply good_script_zeros.
-  - apply andb_true_iff in H as [_ H]. now apply good_script_zeros.
-Qed.
-
-(* What one Read does on a good source: end of data <-> (0, EOF); otherwise
-   some bytes (at least one, at most cap), no error, and the rest stays good. *)
-Definition rd_ok (cap : N) (data : bytes) (bs : bytes) (e : bool) (data' : bytes) : Prop :=
-  (data = [] -> bs = [] /\ e = true /\ data' = []) /\
-  (data <> [] -> e = false /\ bs <> [] /\ lenN bs <= cap /\ data = bs ++ data').
-
-Lemma rd_script_good cap sc :
-  good_script sc = true -> 1 <= cap ->
-  let '(bs, e, sc') := rd_script cap sc in
-  good_script sc' = true /\ rd_ok cap (script_data sc) bs e (script_data sc').
-Proof.
-  intros Hg Hcap. destruct sc as [|[bs e] rest]; simpl.
-  - split; [reflexivity|]. split; [auto|]. intro H. exfalso. apply H. reflexivity.
-  - apply good_script_cases in Hg as [(-> & -> & ->) | (-> & Hbs & Hr)].
-    + simpl. destruct (N.leb_spec 0 cap); [|lia].
-      split; [reflexivity|]. split; [auto|]. intro Hx. exfalso. apply Hx. reflexivity.
-    + unfold script_data; simpl. fold (script_data rest).
-      destruct (N.leb_spec (lenN bs) cap) as [Hle|Hgt].
-      * split; [exact Hr|]. split.
-        -- intro E. apply app_eq_nil in E as [E _]. congruence.
-        -- intros _. repeat split; auto.
-      * split.
-        -- simpl. pose proof (dropN_nonnil cap bs Hgt) as Hd.
-           destruct (dropN cap bs); [congruence|]. exact Hr.
-        -- unfold script_data; simpl. fold (script_data rest). split.
-           ++ intro E. apply app_eq_nil in E as [E _]. congruence.
-           ++ intros _. repeat split.
-              ** now apply takeN_nonnil.
-              ** rewrite lenN_takeN. lia.
-              ** rewrite app_assoc, take_drop. reflexivity.
-Qed.
-
-Lemma rd_good cap s :
-  good_src s = true -> 1 <= cap ->
-  let '(bs, e, s') := rd cap s in
-  good_src s' = true /\ rd_ok cap (src_data s) bs e (src_data s').
-Proof.
-  intros Hg Hcap. destruct s as [sc | buf pend sc]; simpl in *.
-  - pose proof (rd_script_good cap sc Hg Hcap) as H.
-    destruct (rd_script cap sc) as [[bs e] sc']. exact H.
-  - apply andb_true_iff in Hg as [Hp Hg]. destruct pend; [discriminate|]. clear Hp.
-    destruct buf as [|x buf].
-    + destruct (N.leb_spec bufio_size cap) as [Hbig|Hsmall].
-      * pose proof (rd_script_good cap sc Hg Hcap) as H.
-        destruct (rd_script cap sc) as [[bs e] sc']. simpl. exact H.
-      * assert (H1 : 1 <= bufio_size) by (unfold bufio_size; lia).
-        pose proof (rd_script_good bufio_size sc Hg H1) as H.
-        destruct (rd_script bufio_size sc) as [[bs e] sc']. destruct H as [Hg' [Hnil Hdat]].
-        destruct bs as [|y bs]; simpl.
-        -- split; [exact Hg'|]. split; [exact Hnil|].
-           intro Hne. destruct (Hdat Hne) as (_ & Hbad & _). congruence.
-        -- assert (Hne : script_data sc <> []).
-           { intro E. destruct (Hnil E) as [Hbad _]. discriminate. }
-           destruct (Hdat Hne) as (-> & _ & Hlen & Hd).
-           split; [simpl; exact Hg'|]. split; [intro E; congruence|].
-           intros _. repeat split.
-           ++ apply takeN_nonnil; [exact Hcap | discriminate].
-           ++ rewrite lenN_takeN. lia.
-           ++ rewrite Hd, app_assoc, take_drop. reflexivity.
-    + split; [simpl; exact Hg|]. split; [intro E; discriminate|].
-      intros _. repeat split.
-      * apply takeN_nonnil; [exact Hcap | discriminate].
-      * rewrite lenN_takeN. lia.
-      * change (src_data (Buffered (dropN cap (x :: buf)) false sc))
-          with (dropN cap (x :: buf) ++ script_data sc).
-        rewrite app_assoc, take_drop. reflexivity.
-Qed.
-
-(* ------------------------------------------------------------------ *)
-(* simulation between two runs on good sources holding the same data    *)
-(* ------------------------------------------------------------------ *)
-
-Definition Rst (s1 s2 : rstate) : Prop :=
-  good_src (s_src s1) = true /\ good_src (s_src s2) = true /\
-  src_data (s_src s1) = src_data (s_src s2) /\
-  s_b0 s1 = s_b0 s2 /\ s_cnt s1 = s_cnt s2 /\ s_out s1 = s_out s2.
-
-Definition res_rel {A} (r1 r2 : res A) : Prop :=
-  match r1, r2 with
-  | Ret a s1, Ret b s2 => a = b /\ Rst s1 s2
-  | Fail s1, Fail s2 => s_out s1 = s_out s2
-  | Stuck, Stuck => True
-  | _, _ => False
-  end.
-
-Definition sim {A} (m : M A) : Prop := forall s1 s2, Rst s1 s2 -> res_rel (m s1) (m s2).
-
-Lemma sim_ret {A} (a : A) : sim (ret a).
-Proof. intros s1 s2 H. simpl. auto. Qed.
-
-Lemma sim_fail {A} : sim (@fail A).
-Proof. intros s1 s2 H. simpl. apply H. Qed.
-
-Lemma sim_stuck {A} : sim (@stuck A).
-Proof. intros s1 s2 H. exact I. Qed.
-
-Lemma sim_bind {A B} (m : M A) (f : A -> M B) :
-  sim m -> (forall a, sim (f a)) -> sim (bind m f).
-Proof.
-  intros Hm Hf s1 s2 H. unfold bind. specialize (Hm s1 s2 H).
-  destruct (m s1) as [a s1'| s1' |], (m s2) as [b s2' | s2' |]; simpl in Hm; try contradiction; auto.
-  destruct Hm as [-> Hm]. apply Hf, Hm.
-Qed.
-
-Lemma sim_emit t : sim (emit t).
-Proof.
-  intros s1 s2 (H1 & H2 & H3 & H4 & H5 & H6). simpl. split; [reflexivity|].
-  unfold Rst; simpl. repeat split; auto. now rewrite H6.
-Qed.
-
-Lemma sim_ev e : sim (ev e).
-Proof. apply sim_emit. Qed.
-
-Lemma sim_get_b0 : sim get_b0.
-Proof. intros s1 s2 H. simpl. split; [apply H | exact H]. Qed.
-
-Lemma src_fuel_eq s1 s2 :
-  good_src s1 = true -> good_src s2 = true -> src_data s1 = src_data s2 -> src_fuel s1 = src_fuel s2.
-Proof.
-  intros H1 H2 H3. unfold src_fuel. rewrite (good_src_zeros _ H1), (good_src_zeros _ H2), H3. reflexivity.
-Qed.
-
-Lemma sim_get_fuel : sim get_fuel.
-Proof.
-  intros s1 s2 H. simpl. split; [|exact H].
-  destruct H as (H1 & H2 & H3 & _). now apply src_fuel_eq.
-Qed.
-
-Lemma sim_mark maxdoc n : sim (mark maxdoc n).
-Proof.
-  intros s1 s2 (H1 & H2 & H3 & H4 & H5 & H6). unfold mark. rewrite H5.
-  destruct (maxdoc <? (s_cnt s2 + n) mod two64); simpl; [exact H6|].
-  split; [reflexivity|]. unfold Rst; simpl. auto 10.
-Qed.
-
-Lemma one_byte bs : bs <> [] -> lenN bs <= 1 -> exists x, bs = [x].
-Proof.
-  destruct bs as [|x [|y bs]]; simpl; intros H1 H2; [congruence | eauto |].
-  rewrite lenN_length in H2. lia.
-Qed.
-
-Lemma sim_rd1 : sim rd1.
-Proof.
-  intros s1 s2 (H1 & H2 & H3 & H4 & H5 & H6). unfold rd1.
-  pose proof (rd_good 1 (s_src s1) H1 ltac:(lia)) as R1.
-  pose proof (rd_good 1 (s_src s2) H2 ltac:(lia)) as R2.
-  destruct (rd 1 (s_src s1)) as [[bs1 e1] t1], (rd 1 (s_src s2)) as [[bs2 e2] t2].
-  destruct R1 as [G1 [N1 D1]], R2 as [G2 [N2 D2]].
-  destruct (src_data (s_src s1)) as [|x d] eqn:E1.
-  - symmetry in H3. destruct (N1 eq_refl) as (-> & -> & T1), (N2 H3) as (-> & -> & T2).
-    simpl. split; [reflexivity|]. unfold Rst; simpl. rewrite T1, T2. auto 10.
-  - assert (Hne1 : x :: d <> []) by discriminate.
-    assert (Hne2 : src_data (s_src s2) <> []) by (rewrite <- H3; discriminate).
-    destruct (D1 Hne1) as (-> & B1 & L1 & A1), (D2 Hne2) as (-> & B2 & L2 & A2).
-    destruct (one_byte _ B1 L1) as [y1 ->], (one_byte _ B2 L2) as [y2 ->].
-    rewrite <- H3 in A2. simpl in A1, A2. injection A1 as -> A1. injection A2 as -> A2.
-    simpl. split; [reflexivity|]. unfold Rst; simpl. rewrite <- A1, <- A2. auto 10.
-Qed.
-
-(* the fill loop on a good source, by its data alone *)
-Lemma fill_loop_good fuel : forall need s,
-  good_src s = true -> 1 <= need -> (length (src_data s) < fuel)%nat ->
-  if need <=? lenN (src_data s) then
-    exists s', fill_loop fuel need s = Some (Some (takeN need (src_data s), s')) /\
-               good_src s' = true /\ src_data s' = dropN need (src_data s)
-  else fill_loop fuel need s = Some None.
-Proof.
-  induction fuel as [|f IH]; intros need s Hg Hn Hf; [lia|].
-  simpl. pose proof (rd_good need s Hg Hn) as R.
-  destruct (rd need s) as [[bs e] s']. destruct R as [G [Nil Dat]].
-  destruct (src_data s) as [|x d] eqn:E.
-  - destruct (Nil eq_refl) as (-> & -> & _). simpl.
-    destruct (N.leb_spec need 0); [lia | reflexivity].
-  - destruct (Dat ltac:(discriminate)) as (-> & B & L & A).
-    assert (Hlen : (length (src_data s') < f)%nat).
-    { apply (f_equal (@length _)) in A. rewrite app_length in A. simpl in *.
-      destruct bs; [congruence|]. simpl in A. lia. }
-    destruct (N.leb_spec need (lenN bs)) as [Hfull|Hpart].
-    + assert (lenN bs = need) by lia. subst need.
-      rewrite A, lenN_app. destruct (N.leb_spec (lenN bs) (lenN bs + lenN (src_data s'))); [|lia].
-      exists s'. rewrite takeN_app_exact, dropN_app_exact. auto.
-    + specialize (IH (need - lenN bs) s' G ltac:(lia) Hlen).
-      rewrite A, lenN_app.
-      destruct (N.leb_spec (need - lenN bs) (lenN (src_data s'))) as [Hen|Hno].
-      * destruct IH as (s'' & -> & G'' & D'').
-        destruct (N.leb_spec need (lenN bs + lenN (src_data s'))); [|lia].
-        exists s''. rewrite takeN_app_more, dropN_app_more by lia. auto.
-      * rewrite IH. destruct (N.leb_spec need (lenN bs + lenN (src_data s'))); [lia | reflexivity].
-Qed.
-
-Lemma sim_fill at0 need : sim (fill at0 need).
-Proof.
-  intros s1 s2 (H1 & H2 & H3 & H4 & H5 & H6). unfold fill.
-  destruct (N.eqb_spec need 0) as [->|Hn].
-  - simpl. split; [reflexivity|]. unfold Rst. auto 10.
-  - pose proof (fill_loop_good (src_fuel (s_src s1)) need (s_src s1) H1 ltac:(lia)
-                  ltac:(unfold src_fuel; lia)) as F1.
-    pose proof (fill_loop_good (src_fuel (s_src s2)) need (s_src s2) H2 ltac:(lia)
-                  ltac:(unfold src_fuel; lia)) as F2.
-    rewrite <- H3 in F2.
-    destruct (need <=? lenN (src_data (s_src s1))).
-    + destruct F1 as (t1 & -> & G1 & D1), F2 as (t2 & -> & G2 & D2).
-      simpl. split; [reflexivity|]. unfold Rst; simpl. rewrite D1, D2, H4. auto 10.
-    + rewrite F1, F2. simpl. exact H6.
-Qed.
-
-#[export] Hint Resolve sim_ret sim_fail sim_stuck sim_emit sim_ev sim_get_b0 sim_get_fuel
-  sim_mark sim_rd1 sim_fill : simdb.
-
-Ltac sim_go :=
-  repeat first
-    [ solve [auto 2 with simdb]
-    | apply sim_bind; [ | intros ]
-    | match goal with |- sim (if ?c then _ else _) => destruct c end
-    | match goal with |- sim (match ?x with _ => _ end) => destruct x end
-    | match goal with |- sim (let '(_, _) := ?p in _) => destruct p end ].
-
-Section Sims.
-  Variable maxdoc : N.
-
-  Lemma sim_read_u8 : sim (read_u8 maxdoc).
-  Proof. unfold read_u8. sim_go. Qed.
-
-  Lemma sim_read_type_or_eof : sim (read_type_or_eof maxdoc).
-  Proof. unfold read_type_or_eof. sim_go. Qed.
-
-  Lemma sim_fill_mark at0 n : sim (fill_mark maxdoc at0 n).
-  Proof. unfold fill_mark. sim_go. Qed.
-
-  Lemma sim_read_bytes n : sim (read_bytes maxdoc n).
-  Proof. apply sim_fill_mark. Qed.
-
-  Lemma sim_rd1x : sim (rd1x maxdoc).
-  Proof. unfold rd1x. sim_go. Qed.
-  Hint Resolve sim_fill_mark sim_rd1x : simdb.
-
-  Lemma sim_uleb_loop fuel : forall acc shift k, sim (uleb_loop maxdoc fuel acc shift k).
-  Proof.
-    induction fuel as [|f IH]; intros acc shift k; simpl; [apply sim_stuck|].
-    sim_go; try apply IH.
-  Qed.
-
-  Lemma sim_uleb : sim (uleb maxdoc).
-  Proof. unfold uleb. sim_go; try apply sim_uleb_loop. Qed.
-
-  Hint Resolve sim_read_u8 sim_read_type_or_eof sim_read_bytes sim_uleb : simdb.
-
-  Lemma sim_small_uleb maxv : sim (small_uleb maxdoc maxv).
-  Proof. unfold small_uleb. sim_go. Qed.
-  Hint Resolve sim_small_uleb : simdb.
-
-  Lemma sim_read_identifier : sim (read_identifier maxdoc).
-  Proof. unfold read_identifier. sim_go. Qed.
-
-  Lemma sim_read_uint : sim (read_uint maxdoc).
-  Proof. unfold read_uint. sim_go. Qed.
-
-  Lemma sim_read_decimal : sim (read_decimal maxdoc).
-  Proof. unfold read_decimal. sim_go. Qed.
-
-  Lemma sim_read_timezone : sim (read_timezone maxdoc).
-  Proof. unfold read_timezone. sim_go. Qed.
-  Hint Resolve sim_read_identifier sim_read_uint sim_read_decimal sim_read_timezone : simdb.
-
-  Lemma sim_read_date : sim (read_date maxdoc).
-  Proof. unfold read_date. sim_go. Qed.
-
-  Lemma sim_read_time : sim (read_time maxdoc).
-  Proof. unfold read_time. sim_go. Qed.
-
-  Lemma sim_read_timestamp : sim (read_timestamp maxdoc).
-  Proof. unfold read_timestamp. sim_go. Qed.
-  Hint Resolve sim_read_date sim_read_time sim_read_timestamp : simdb.
-
-  Lemma sim_chunks fuel : forall width, sim (chunks maxdoc fuel width).
-  Proof.
-    induction fuel as [|f IH]; intro width; simpl; [apply sim_stuck|].
-    sim_go; try apply IH.
-  Qed.
-  Hint Resolve sim_chunks : simdb.
-
-  Lemma sim_decode_array fuel t : sim (decode_array maxdoc fuel t).
-  Proof. unfold decode_array. sim_go. Qed.
-
-  Lemma sim_decode_media fuel : sim (decode_media maxdoc fuel).
-  Proof. unfold decode_media. sim_go. Qed.
-
-  Lemma sim_decode_custom fuel : sim (decode_custom maxdoc fuel).
-  Proof. unfold decode_custom. sim_go. Qed.
-
-  Lemma sim_short_array t sz cnt : sim (short_array maxdoc t sz cnt).
-  Proof. unfold short_array. sim_go. Qed.
-  Hint Resolve sim_decode_array sim_decode_media sim_decode_custom sim_short_array : simdb.
-
-  Lemma sim_decode_plane7f fuel : sim (decode_plane7f maxdoc fuel).
-  Proof. unfold decode_plane7f. sim_go. Qed.
-
-  Lemma sim_int_event neg v : sim (int_event neg v).
-  Proof. unfold int_event. sim_go. Qed.
-  Hint Resolve sim_decode_plane7f sim_int_event : simdb.
-
-  Lemma sim_decode_token fuel t : sim (decode_token maxdoc fuel t).
-  Proof. unfold decode_token. sim_go. Qed.
-  Hint Resolve sim_decode_token : simdb.
-
-  Lemma sim_main_loop fuel : sim (main_loop maxdoc fuel).
-  Proof.
-    induction fuel as [|f IH]; simpl; [apply sim_stuck|].
-    sim_go; try exact IH.
-  Qed.
-  Hint Resolve sim_main_loop : simdb.
-
-  Lemma sim_decode_doc fuel : sim (decode_doc maxdoc fuel).
-  Proof. unfold decode_doc. sim_go. Qed.
-
-  (* Two good sources holding the same bytes: same events, same error-or-not. *)
-  Lemma cbe_decode_src_good s1 s2 :
-    good_src s1 = true -> good_src s2 = true -> src_data s1 = src_data s2 ->
-    cbe_decode_src maxdoc s1 = cbe_decode_src maxdoc s2.
-  Proof.
-    intros H1 H2 H3. unfold cbe_decode_src. rewrite (src_fuel_eq s1 s2 H1 H2 H3).
-    assert (R : Rst (mkst s1 0 0 []) (mkst s2 0 0 [])) by (unfold Rst; simpl; auto 10).
-    pose proof (sim_decode_doc (src_fuel s2) _ _ R) as S.
-    destruct (decode_doc maxdoc (src_fuel s2) (mkst s1 0 0 [])) as [a t1|t1|],
-             (decode_doc maxdoc (src_fuel s2) (mkst s2 0 0 [])) as [b t2|t2|];
-      simpl in S; try contradiction; simpl.
-    - destruct S as [_ (_ & _ & _ & _ & _ & ->)]. reflexivity.
-    - now rewrite S.
-    - reflexivity.
-  Qed.
-End Sims.
-
-Lemma mem_script_good d : good_script (mem_script d) = true.
-Proof. destruct d; reflexivity. Qed.
-
-Lemma mem_script_data d : script_data (mem_script d) = d.
-Proof. destruct d; [reflexivity|]. unfold script_data; simpl. now rewrite app_nil_r. Qed.
-
-(* stream_eq_memory on the script class that works *)
-Theorem decode_stream_good maxdoc sc d :
-  good_script sc = true -> script_data sc = d ->
-  decode_stream maxdoc sc = decode_mem maxdoc d.
-Proof.
-  intros Hg Hd. unfold decode_mem, decode_stream. apply cbe_decode_src_good; simpl.
-  - exact Hg.
-  - apply mem_script_good.
-  - now rewrite mem_script_data.
-Qed.
+Local Arguments takeN : simpl never.
+Local Arguments dropN : simpl never.
 
 (* ------------------------------------------------------------------ *)
 (* facts about one Read that hold for every source                      *)
@@ -636,13 +256,443 @@ Qed.
 Lemma copy_all_wf s : wf_src s -> copy_all s = Some (src_data s).
 Proof. intro H. apply copy_loop_all; [exact H | unfold mu, src_fuel; lia]. Qed.
 
+
+Lemma one_byte bs : bs <> [] -> lenN bs <= 1 -> exists x, bs = [x].
+Proof.
+  destruct bs as [|x [|y bs]]; simpl; intros H1 H2; [congruence | eauto |].
+  rewrite lenN_length in H2. simpl in H2. lia.
+Qed.
+
+(* ------------------------------------------------------------------ *)
+(* Reader.Read: the retry loop and the pending error                    *)
+(* ------------------------------------------------------------------ *)
+
+Lemma skip_zeros_spec fuel : forall cap s,
+  1 <= cap -> (src_zeros s < fuel)%nat ->
+  exists bs e s',
+    skip_zeros fuel cap s = Some (bs, e, s') /\
+    src_data s = bs ++ src_data s' /\ lenN bs <= cap /\ (bs = [] -> e = true) /\
+    (wf_src s -> wf_src s' /\ (e = true -> src_data s' = [])).
+Proof.
+  induction fuel as [|f IH]; intros cap s Hcap Hf; [lia|]. simpl.
+  pose proof (rd_gen cap s Hcap) as G. pose proof (rd_wf cap s) as W.
+  destruct (rd cap s) as [[bs e] s']. destruct G as (Hd & Hz & Hl & Hp).
+  destruct bs as [|x bs].
+  - destruct e.
+    + exists [], true, s'. split; [reflexivity|]. split; [exact Hd|]. split; [exact Hl|].
+      split; [reflexivity|]. intro Hw. apply W, Hw.
+    + specialize (Hp eq_refl eq_refl).
+      destruct (IH cap s' Hcap ltac:(lia)) as (bs2 & e2 & s2 & E & D2 & L2 & N2 & W2).
+      exists bs2, e2, s2. rewrite E. split; [reflexivity|]. split; [rewrite Hd; exact D2|].
+      split; [exact L2|]. split; [exact N2|]. intro Hw. apply W2, W, Hw.
+  - exists (x :: bs), e, s'. split; [reflexivity|]. split; [exact Hd|]. split; [exact Hl|].
+    split; [discriminate|]. intro Hw. apply W, Hw.
+Qed.
+
+(* the decoder's state is consistent: after io.EOF nothing is left *)
+Definition wf_st (s : rstate) : Prop :=
+  wf_src (s_src s) /\ (s_pend s = true -> src_data (s_src s) = []).
+
+Definition same_regs (s s' : rstate) : Prop :=
+  s_b0 s' = s_b0 s /\ s_out s' = s_out s.
+
+Section Nrd.
+  Variable maxdoc : N.
+
+  (* What Reader.Read does, in terms of the data alone. *)
+  Lemma nrd_spec cap s :
+    1 <= cap -> wf_st s ->
+    (src_data (s_src s) = [] ->
+       exists s', nrd maxdoc cap s = Ret ([], true) s' /\ wf_st s' /\ src_data (s_src s') = [] /\
+                  same_regs s s' /\ s_cnt s' = s_cnt s) /\
+    (src_data (s_src s) <> [] ->
+       exists bs s', bs <> [] /\ lenN bs <= cap /\
+         src_data (s_src s) = bs ++ src_data (s_src s') /\ wf_st s' /\
+         same_regs s s' /\ s_cnt s' = s_cnt s + lenN bs /\
+         nrd maxdoc cap s = (if maxdoc <? s_cnt s + lenN bs then Fail s' else Ret (bs, false) s')).
+  Proof.
+    intros Hcap [Hw Hp]. unfold nrd. destruct (s_pend s) eqn:Ep.
+    - specialize (Hp eq_refl). split; [|congruence].
+      intros _. exists s. unfold wf_st, same_regs. rewrite Ep. auto 10.
+    - destruct (skip_zeros_spec (S (src_zeros (s_src s))) cap (s_src s) Hcap ltac:(lia))
+        as (bs & e & s' & -> & Hd & Hl & Hn & W). destruct (W Hw) as [W1 W2]. clear W.
+      destruct bs as [|x bs].
+      + specialize (Hn eq_refl). subst e. specialize (W2 eq_refl). simpl in Hd. split.
+        * intros _. eexists. split; [reflexivity|]. unfold wf_st, same_regs; simpl. auto 10.
+        * intro Hne. congruence.
+      + split; [intro E; rewrite Hd in E; discriminate|]. intros _.
+        exists (x :: bs), (mkst s' e (s_b0 s) (s_cnt s + lenN (x :: bs)) (s_out s)).
+        unfold wf_st, same_regs; simpl. repeat split; auto; try discriminate;
+          try (destruct (maxdoc <? s_cnt s + lenN (x :: bs)); reflexivity).
+  Qed.
+End Nrd.
+
+(* ------------------------------------------------------------------ *)
+(* simulation between two runs on readers holding the same data         *)
+(* ------------------------------------------------------------------ *)
+
+Definition Rst (s1 s2 : rstate) : Prop :=
+  wf_st s1 /\ wf_st s2 /\
+  src_data (s_src s1) = src_data (s_src s2) /\
+  s_b0 s1 = s_b0 s2 /\ s_cnt s1 = s_cnt s2 /\ s_out s1 = s_out s2.
+
+Definition res_rel {A} (r1 r2 : res A) : Prop :=
+  match r1, r2 with
+  | Ret a s1, Ret b s2 => a = b /\ Rst s1 s2
+  | Fail s1, Fail s2 => s_out s1 = s_out s2
+  | Stuck, Stuck => True
+  | _, _ => False
+  end.
+
+Definition sim {A} (m : M A) : Prop := forall s1 s2, Rst s1 s2 -> res_rel (m s1) (m s2).
+
+Lemma sim_ret {A} (a : A) : sim (ret a).
+Proof. intros s1 s2 H. simpl. auto. Qed.
+
+Lemma sim_fail {A} : sim (@fail A).
+Proof. intros s1 s2 H. simpl. apply H. Qed.
+
+Lemma sim_stuck {A} : sim (@stuck A).
+Proof. intros s1 s2 H. exact I. Qed.
+
+Lemma sim_bind {A B} (m : M A) (f : A -> M B) :
+  sim m -> (forall a, sim (f a)) -> sim (bind m f).
+Proof.
+  intros Hm Hf s1 s2 H. unfold bind. specialize (Hm s1 s2 H).
+  destruct (m s1) as [a s1'| s1' |], (m s2) as [b s2' | s2' |]; simpl in Hm; try contradiction; auto.
+  destruct Hm as [-> Hm]. apply Hf, Hm.
+Qed.
+
+Lemma sim_emit t : sim (emit t).
+Proof.
+  intros s1 s2 (H1 & H2 & H3 & H4 & H5 & H6). simpl. split; [reflexivity|].
+  unfold Rst, wf_st in *; simpl. repeat split; try tauto. now rewrite H6.
+Qed.
+
+Lemma sim_ev e : sim (ev e).
+Proof. apply sim_emit. Qed.
+
+Lemma sim_get_b0 : sim get_b0.
+Proof. intros s1 s2 H. simpl. split; [apply H | exact H]. Qed.
+
+Lemma sim_set_b0 x : sim (set_b0 x).
+Proof.
+  intros s1 s2 (H1 & H2 & H3 & H4 & H5 & H6). simpl. split; [reflexivity|].
+  unfold Rst, wf_st in *; simpl. repeat split; tauto.
+Qed.
+
+Lemma sim_get_fuel : sim get_fuel.
+Proof.
+  intros s1 s2 H. simpl. split; [|exact H].
+  destruct H as (_ & _ & H3 & _). unfold dec_fuel. now rewrite H3.
+Qed.
+
+Section SimPrims.
+  Variable maxdoc : N.
+
+  Lemma sim_nrd1 : sim (nrd maxdoc 1).
+  Proof.
+    intros s1 s2 (W1 & W2 & H3 & H4 & H5 & H6).
+    destruct (nrd_spec maxdoc 1 s1 ltac:(lia) W1) as [N1 D1].
+    destruct (nrd_spec maxdoc 1 s2 ltac:(lia) W2) as [N2 D2].
+    destruct (src_data (s_src s1)) as [|x d] eqn:E1.
+    - symmetry in H3.
+      destruct (N1 eq_refl) as (t1 & -> & V1 & T1 & [B1 O1] & C1).
+      destruct (N2 H3) as (t2 & -> & V2 & T2 & [B2 O2] & C2).
+      simpl. split; [reflexivity|]. unfold Rst. rewrite T1, T2, B1, B2, O1, O2, C1, C2. auto 10.
+    - assert (Hne2 : src_data (s_src s2) <> []) by (rewrite <- H3; discriminate).
+      destruct (D1 ltac:(discriminate)) as (bs1 & t1 & Z1 & L1 & A1 & V1 & [B1 O1] & C1 & ->).
+      destruct (D2 Hne2) as (bs2 & t2 & Z2 & L2 & A2 & V2 & [B2 O2] & C2 & ->).
+      destruct (one_byte _ Z1 L1) as [y1 ->], (one_byte _ Z2 L2) as [y2 ->].
+      rewrite <- H3 in A2. simpl in A1, A2. injection A1 as -> A1. injection A2 as -> A2.
+      rewrite H5. destruct (maxdoc <? s_cnt s2 + lenN [y2]); simpl.
+      + now rewrite O1, O2.
+      + split; [reflexivity|]. unfold Rst. rewrite <- A1, <- A2, B1, B2, O1, O2, C1, C2, H5. auto 10.
+  Qed.
+
+  Lemma fill_loop_S f need s :
+    fill_loop maxdoc (S f) need s =
+    match nrd maxdoc need s with
+    | Ret r s' =>
+        (if snd r then fail
+         else if need <=? lenN (fst r) then ret (fst r)
+         else bind (fill_loop maxdoc f (need - lenN (fst r))) (fun more => ret (fst r ++ more))) s'
+    | Fail s' => Fail s'
+    | Stuck => Stuck
+    end.
+  Proof. reflexivity. Qed.
+
+  (* the fill loop, in terms of the data and the byte budget alone *)
+  Lemma fill_loop_spec fuel : forall need s,
+    1 <= need -> wf_st s -> (length (src_data (s_src s)) < fuel)%nat ->
+    if (need <=? lenN (src_data (s_src s))) && (s_cnt s + need <=? maxdoc) then
+      exists s', fill_loop maxdoc fuel need s = Ret (takeN need (src_data (s_src s))) s' /\
+                 wf_st s' /\ src_data (s_src s') = dropN need (src_data (s_src s)) /\
+                 same_regs s s' /\ s_cnt s' = s_cnt s + need
+    else exists s', fill_loop maxdoc fuel need s = Fail s' /\ s_out s' = s_out s.
+  Proof.
+    induction fuel as [|f IH]; intros need s Hn Hw Hf; [lia|].
+    rewrite fill_loop_S.
+    destruct (nrd_spec maxdoc need s Hn Hw) as [Nil Dat].
+    destruct (src_data (s_src s)) as [|x d] eqn:E.
+    - destruct (Nil eq_refl) as (t & -> & V & T & [B O] & C). cbn [snd]. simpl lenN.
+      destruct (N.leb_spec need 0); [lia|]. simpl. exists t. split; [reflexivity | exact O].
+    - destruct (Dat ltac:(discriminate)) as (bs & t & Z & L & A & V & [B O] & C & ->).
+      assert (Hlen : (length (src_data (s_src t)) < f)%nat).
+      { apply (f_equal (@length _)) in A. rewrite app_length in A. simpl in *.
+        destruct bs; [congruence|]. simpl in A. lia. }
+      rewrite A, lenN_app.
+      destruct (N.ltb_spec maxdoc (s_cnt s + lenN bs)) as [Hover|Hfit].
+      + (* over the limit already *)
+        replace ((need <=? lenN bs + lenN (src_data (s_src t))) && (s_cnt s + need <=? maxdoc)) with false
+          by (symmetry; apply andb_false_iff; right; apply N.leb_gt; lia).
+        exists t. split; [reflexivity | exact O].
+      + cbn [fst snd]. destruct (N.leb_spec need (lenN bs)) as [Hfull|Hpart].
+        * assert (lenN bs = need) by lia. subst need.
+          destruct (N.leb_spec (lenN bs) (lenN bs + lenN (src_data (s_src t)))); [|lia].
+          destruct (N.leb_spec (s_cnt s + lenN bs) maxdoc); [|lia]. simpl.
+          exists t. rewrite takeN_app_exact, dropN_app_exact. unfold same_regs. auto 10.
+        * specialize (IH (need - lenN bs) t ltac:(lia) V Hlen). rewrite C in IH.
+          replace ((need <=? lenN bs + lenN (src_data (s_src t))) && (s_cnt s + need <=? maxdoc))
+            with ((need - lenN bs <=? lenN (src_data (s_src t))) && (s_cnt s + lenN bs + (need - lenN bs) <=? maxdoc)).
+          2:{ f_equal.
+              - destruct (N.leb_spec (need - lenN bs) (lenN (src_data (s_src t)))),
+                         (N.leb_spec need (lenN bs + lenN (src_data (s_src t)))); try reflexivity; lia.
+              - f_equal. lia. }
+          unfold bind.
+          destruct ((need - lenN bs <=? lenN (src_data (s_src t))) &&
+                    (s_cnt s + lenN bs + (need - lenN bs) <=? maxdoc)).
+          -- destruct IH as (t' & -> & V' & D' & [B' O'] & C'). simpl.
+             exists t'. rewrite takeN_app_more, dropN_app_more by lia.
+             unfold same_regs. split; [reflexivity|]. split; [exact V'|]. split; [exact D'|].
+             split; [split; congruence | lia].
+          -- destruct IH as (t' & -> & O'). exists t'. split; [reflexivity | congruence].
+  Qed.
+
+  Definition fill_tail (at0 : bool) (bs : bytes) : M bytes :=
+    bind (if at0 then match bs with x :: _ => set_b0 x | [] => ret tt end else ret tt) (fun _ => ret bs).
+
+  Lemma fill_eq at0 need s :
+    need <> 0 ->
+    fill maxdoc at0 need s =
+    match fill_loop maxdoc (dec_fuel (s_src s)) need s with
+    | Ret bs s' => fill_tail at0 bs s'
+    | Fail s' => Fail s'
+    | Stuck => Stuck
+    end.
+  Proof.
+    intro Hn. unfold fill. apply N.eqb_neq in Hn. rewrite Hn. reflexivity.
+  Qed.
+
+  Lemma sim_fill_tail at0 bs : sim (fill_tail at0 bs).
+  Proof.
+    unfold fill_tail. apply sim_bind; [|intros; apply sim_ret].
+    destruct at0; [|apply sim_ret]. destruct bs; [apply sim_ret | apply sim_set_b0].
+  Qed.
+
+  Lemma sim_fill at0 need : sim (fill maxdoc at0 need).
+  Proof.
+    intros s1 s2 (W1 & W2 & H3 & H4 & H5 & H6).
+    destruct (N.eqb_spec need 0) as [->|Hn].
+    - simpl. split; [reflexivity|]. unfold Rst. auto 10.
+    - rewrite !fill_eq by exact Hn.
+      pose proof (fill_loop_spec (dec_fuel (s_src s1)) need s1 ltac:(lia) W1
+                    ltac:(unfold dec_fuel; lia)) as F1.
+      pose proof (fill_loop_spec (dec_fuel (s_src s2)) need s2 ltac:(lia) W2
+                    ltac:(unfold dec_fuel; lia)) as F2.
+      rewrite <- H3, <- H5 in F2.
+      destruct ((need <=? lenN (src_data (s_src s1))) && (s_cnt s1 + need <=? maxdoc)).
+      + destruct F1 as (t1 & E1 & V1 & D1 & [B1 O1] & C1), F2 as (t2 & E2 & V2 & D2 & [B2 O2] & C2).
+        rewrite E1, E2. apply sim_fill_tail.
+        unfold Rst. rewrite D1, D2, B1, B2, O1, O2, C1, C2, H3, H4, H5, H6. auto 10.
+      + destruct F1 as (t1 & E1 & O1), F2 as (t2 & E2 & O2). rewrite E1, E2. simpl. congruence.
+  Qed.
+End SimPrims.
+
+#[export] Hint Resolve sim_ret sim_fail sim_stuck sim_emit sim_ev sim_get_b0 sim_set_b0 sim_get_fuel
+  sim_nrd1 sim_fill : simdb.
+
+Ltac sim_go :=
+  repeat first
+    [ solve [auto 2 with simdb]
+    | apply sim_bind; [ | intros ]
+    | match goal with |- sim (if ?c then _ else _) => destruct c end
+    | match goal with |- sim (match ?x with _ => _ end) => destruct x end
+    | match goal with |- sim (let '(_, _) := ?p in _) => destruct p end ].
+
+Section Sims.
+  Variable maxdoc : N.
+
+  Lemma sim_rd1 : sim (rd1 maxdoc).
+  Proof. unfold rd1. sim_go. Qed.
+  Hint Resolve sim_rd1 : simdb.
+
+  Lemma sim_read_u8 : sim (read_u8 maxdoc).
+  Proof. unfold read_u8. sim_go. Qed.
+
+  Lemma sim_read_type_or_eof : sim (read_type_or_eof maxdoc).
+  Proof. unfold read_type_or_eof. sim_go. Qed.
+
+  Lemma sim_read_bytes n : sim (read_bytes maxdoc n).
+  Proof. apply sim_fill. Qed.
+
+  Lemma sim_uleb_loop fuel : forall acc shift k, sim (uleb_loop maxdoc fuel acc shift k).
+  Proof.
+    induction fuel as [|f IH]; intros acc shift k; simpl; [apply sim_stuck|].
+    sim_go; try apply IH.
+  Qed.
+
+  Lemma sim_uleb : sim (uleb maxdoc).
+  Proof. unfold uleb. sim_go; try apply sim_uleb_loop. Qed.
+
+  Hint Resolve sim_read_u8 sim_read_type_or_eof sim_read_bytes sim_uleb : simdb.
+
+  Lemma sim_small_uleb maxv : sim (small_uleb maxdoc maxv).
+  Proof. unfold small_uleb. sim_go. Qed.
+  Hint Resolve sim_small_uleb : simdb.
+
+  Lemma sim_read_identifier : sim (read_identifier maxdoc).
+  Proof. unfold read_identifier. sim_go. Qed.
+
+  Lemma sim_read_uint : sim (read_uint maxdoc).
+  Proof. unfold read_uint. sim_go. Qed.
+
+  Lemma sim_read_decimal : sim (read_decimal maxdoc).
+  Proof. unfold read_decimal. sim_go. Qed.
+
+  Lemma sim_read_timezone : sim (read_timezone maxdoc).
+  Proof. unfold read_timezone. sim_go. Qed.
+  Hint Resolve sim_read_identifier sim_read_uint sim_read_decimal sim_read_timezone : simdb.
+
+  Lemma sim_read_date : sim (read_date maxdoc).
+  Proof. unfold read_date. sim_go. Qed.
+
+  Lemma sim_read_time : sim (read_time maxdoc).
+  Proof. unfold read_time. sim_go. Qed.
+
+  Lemma sim_read_timestamp : sim (read_timestamp maxdoc).
+  Proof. unfold read_timestamp. sim_go. Qed.
+  Hint Resolve sim_read_date sim_read_time sim_read_timestamp : simdb.
+
+  Lemma sim_chunks fuel : forall width, sim (chunks maxdoc fuel width).
+  Proof.
+    induction fuel as [|f IH]; intro width; simpl; [apply sim_stuck|].
+    sim_go; try apply IH.
+  Qed.
+  Hint Resolve sim_chunks : simdb.
+
+  Lemma sim_decode_array fuel t : sim (decode_array maxdoc fuel t).
+  Proof. unfold decode_array. sim_go. Qed.
+
+  Lemma sim_decode_media fuel : sim (decode_media maxdoc fuel).
+  Proof. unfold decode_media. sim_go. Qed.
+
+  Lemma sim_decode_custom fuel : sim (decode_custom maxdoc fuel).
+  Proof. unfold decode_custom. sim_go. Qed.
+
+  Lemma sim_short_array t sz cnt : sim (short_array maxdoc t sz cnt).
+  Proof. unfold short_array. sim_go. Qed.
+  Hint Resolve sim_decode_array sim_decode_media sim_decode_custom sim_short_array : simdb.
+
+  Lemma sim_decode_plane7f fuel : sim (decode_plane7f maxdoc fuel).
+  Proof. unfold decode_plane7f. sim_go. Qed.
+
+  Lemma sim_int_event neg v : sim (int_event neg v).
+  Proof. unfold int_event. sim_go. Qed.
+  Hint Resolve sim_decode_plane7f sim_int_event : simdb.
+
+  Lemma sim_decode_token fuel t : sim (decode_token maxdoc fuel t).
+  Proof. unfold decode_token. sim_go. Qed.
+  Hint Resolve sim_decode_token : simdb.
+
+  Lemma sim_main_loop fuel : sim (main_loop maxdoc fuel).
+  Proof.
+    induction fuel as [|f IH]; simpl; [apply sim_stuck|].
+    sim_go; try exact IH.
+  Qed.
+  Hint Resolve sim_main_loop : simdb.
+
+  Lemma sim_decode_doc fuel : sim (decode_doc maxdoc fuel).
+  Proof. unfold decode_doc. sim_go. Qed.
+
+  (* Two readers holding the same bytes: same events, same error-or-not. *)
+  Lemma cbe_decode_src_wf s1 s2 :
+    wf_src s1 -> wf_src s2 -> src_data s1 = src_data s2 ->
+    cbe_decode_src maxdoc s1 = cbe_decode_src maxdoc s2.
+  Proof.
+    intros H1 H2 H3. unfold cbe_decode_src.
+    replace (dec_fuel s1) with (dec_fuel s2) by (unfold dec_fuel; now rewrite H3).
+    assert (R : Rst (mkst s1 false 0 0 []) (mkst s2 false 0 0 [])).
+    { unfold Rst, wf_st; simpl. repeat split; auto; discriminate. }
+    pose proof (sim_decode_doc (dec_fuel s2) _ _ R) as S.
+    destruct (decode_doc maxdoc (dec_fuel s2) (mkst s1 false 0 0 [])) as [a t1|t1|],
+             (decode_doc maxdoc (dec_fuel s2) (mkst s2 false 0 0 [])) as [b t2|t2|];
+      simpl in S; try contradiction; simpl.
+    - destruct S as [_ (_ & _ & _ & _ & _ & ->)]. reflexivity.
+    - now rewrite S.
+    - reflexivity.
+  Qed.
+End Sims.
+
+Lemma mem_script_wf d : eof_last (mem_script d) = true.
+Proof. destruct d; reflexivity. Qed.
+
+Lemma mem_script_data d : script_data (mem_script d) = d.
+Proof. destruct d; [reflexivity|]. unfold script_data; simpl. now rewrite app_nil_r. Qed.
+
+(* stream_eq_memory *)
+Theorem decode_stream_all maxdoc sc d :
+  eof_last sc = true -> script_data sc = d ->
+  decode_stream maxdoc sc = decode_mem maxdoc d.
+Proof.
+  intros Hg Hd. unfold decode_mem, decode_stream. apply cbe_decode_src_wf.
+  - exact Hg.
+  - apply mem_script_wf.
+  - cbn [src_data]. now rewrite mem_script_data.
+Qed.
+
+(* ------------------------------------------------------------------ *)
+(* entry points                                                         *)
+(* ------------------------------------------------------------------ *)
+
+Lemma peek_fill_spec tries : forall sc,
+  eof_last sc = true -> (script_zeros sc < tries)%nat ->
+  exists bs e sc', peek_fill tries sc = Some (bs, e, sc') /\
+    script_data sc = bs ++ script_data sc' /\ eof_last sc' = true /\
+    (e = true -> script_data sc' = []) /\ (bs = [] -> e = true).
+Proof.
+  induction tries as [|k IH]; intros sc Hw Hz; [lia|]. simpl.
+  assert (H1 : 1 <= bufio_size) by (unfold bufio_size; lia).
+  pose proof (rd_script_gen bufio_size sc H1) as G. pose proof (rd_script_wf bufio_size sc Hw) as W.
+  destruct (rd_script bufio_size sc) as [[bs e] sc']. destruct G as (Hd & Hzz & _ & Hp), W as (W1 & W2).
+  destruct e.
+  - exists bs, true, sc'. auto 10.
+  - destruct bs as [|x bs].
+    + specialize (Hp eq_refl eq_refl). destruct (IH sc' W1 ltac:(lia)) as (bs2 & e2 & sc2 & -> & D2 & R).
+      exists bs2, e2, sc2. split; [reflexivity|]. split; [now rewrite Hd|exact R].
+    + exists (x :: bs), false, sc'. repeat split; auto; discriminate.
+Qed.
+
+Lemma peek_init_spec sc :
+  eof_last sc = true -> (script_zeros sc < 100)%nat ->
+  match peek_init sc with
+  | None => script_data sc = []
+  | Some s => wf_src s /\ src_data s = script_data sc /\ script_data sc <> []
+  end.
+Proof.
+  intros Hw Hz. unfold peek_init.
+  destruct (peek_fill_spec 100 sc Hw Hz) as (bs & e & sc' & -> & Hd & W1 & W2 & Hn).
+  destruct bs as [|x bs].
+  - rewrite Hd, (W2 (Hn eq_refl)). reflexivity.
+  - simpl. repeat split; auto. rewrite Hd. discriminate.
+Qed.
+
 Section EntryProofs.
   Context {R : Type}.
   Variable maxdoc : N.
   Variable cte_parse : bytes -> outcome R.
   Variable cbe_build : result -> outcome R.
 
-  (* The CTE entry points do not depend on the script at all. *)
   Theorem cte_stream_all sc d :
     eof_last sc = true -> script_data sc = d ->
     cte_stream cte_parse sc = cte_mem cte_parse d.
@@ -651,128 +701,39 @@ Section EntryProofs.
     rewrite (copy_all_wf (Direct sc) Hw). simpl. now rewrite Hd.
   Qed.
 
-  Theorem cbe_stream_good sc d :
-    good_script sc = true -> script_data sc = d ->
+  Theorem cbe_stream_all sc d :
+    eof_last sc = true -> script_data sc = d ->
     cbe_stream maxdoc cbe_build sc = cbe_mem maxdoc cbe_build d.
   Proof.
-    intros Hg Hd. unfold cbe_stream, cbe_mem. now rewrite (decode_stream_good maxdoc sc d Hg Hd).
+    intros Hg Hd. unfold cbe_stream, cbe_mem. now rewrite (decode_stream_all maxdoc sc d Hg Hd).
   Qed.
-End EntryProofs.
 
-(* ------------------------------------------------------------------ *)
-(* universal entry points on good scripts                               *)
-(* ------------------------------------------------------------------ *)
-
-Lemma good_eof_last sc : good_script sc = true -> eof_last sc = true.
-Proof.
-  induction sc as [|[bs e] rest IH]; [reflexivity|]. intro H.
-  apply good_script_cases in H as [(-> & -> & ->) | (-> & _ & Hr)]; [reflexivity|].
-  destruct rest as [|r rest]; [reflexivity|]. simpl. destruct r. apply IH, Hr.
-Qed.
-
-Lemma peek_init_good sc :
-  good_script sc = true ->
-  match peek_init sc with
-  | None => script_data sc = []
-  | Some s => good_src s = true /\ wf_src s /\ src_data s = script_data sc /\ script_data sc <> []
-  end.
-Proof.
-  intro Hg. unfold peek_init. change (peek_fill 100 sc) with
-    (let '(bs, e, sc') := rd_script bufio_size sc in
-     if e then Some (bs, true, sc')
-     else match bs with [] => peek_fill 99 sc' | _ => Some (bs, false, sc') end).
-  assert (H1 : 1 <= bufio_size) by (unfold bufio_size; lia).
-  pose proof (rd_script_good bufio_size sc Hg H1) as H.
-  destruct (rd_script bufio_size sc) as [[bs e] sc']. destruct H as [Hg' [Hnil Hdat]].
-  destruct (script_data sc) as [|x d] eqn:E.
-  - destruct (Hnil eq_refl) as (-> & -> & _). reflexivity.
-  - destruct (Hdat ltac:(discriminate)) as (-> & Hb & _ & Hd).
-    destruct bs as [|y bs]; [congruence|].
-    simpl. rewrite Hg'. repeat split; auto.
-    + now apply good_eof_last.
-    + discriminate.
-    + discriminate.
-Qed.
-
-Section EntryProofs2.
-  Context {R : Type}.
-  Variable maxdoc : N.
-  Variable cte_parse : bytes -> outcome R.
-  Variable cbe_build : result -> outcome R.
-
-  Theorem ce_stream_good sc d :
-    good_script sc = true -> script_data sc = d ->
+  Theorem ce_stream_all sc d :
+    eof_last sc = true -> (script_zeros sc < 100)%nat -> script_data sc = d ->
     ce_stream maxdoc cte_parse cbe_build sc = ce_mem maxdoc cte_parse cbe_build d.
   Proof.
-    intros Hg Hd. unfold ce_stream, ce_mem. pose proof (peek_init_good sc Hg) as P.
+    intros Hw Hz Hd. unfold ce_stream, ce_mem. pose proof (peek_init_spec sc Hw Hz) as P.
     destruct (peek_init sc) as [s|].
-    - destruct P as (G & W & D & Hne). rewrite D, Hd. destruct d as [|b d]; [congruence|].
+    - destruct P as (W & D & Hne). rewrite D, Hd. destruct d as [|b d]; [congruence|].
       destruct ((b =? 99) || (b =? 67)).
       + unfold cte_src, cte_mem. rewrite (copy_all_wf s W), D, Hd. reflexivity.
       + destruct (b =? 129); [|reflexivity].
         unfold cbe_mem, decode_mem, decode_stream. f_equal.
-        apply cbe_decode_src_good.
-        * exact G.
-        * apply mem_script_good.
+        apply cbe_decode_src_wf.
+        * exact W.
+        * apply mem_script_wf.
         * cbn [src_data]. rewrite mem_script_data, D, Hd. reflexivity.
     - rewrite <- Hd, P. reflexivity.
   Qed.
-End EntryProofs2.
+End EntryProofs.
 
-(* ------------------------------------------------------------------ *)
-(* the two response kinds that break the CBE decoder                    *)
-(* ------------------------------------------------------------------ *)
-
-Definition default_maxdoc : N := 5368709120.
-
-(* the whole document [81 00 01] in one response together with io.EOF:
-   the last byte is taken for the end of the document *)
-Definition witness_data_eof : script := [([129; 0; 1], true)].
-(* a (0, nil) read where a type byte is expected: the previous byte is decoded again *)
-Definition witness_zero_read : script := [([129; 0], false); ([], false); ([1], false)].
-(* a (0, nil) read inside a multi-byte ULEB128 (version 80 80 00): value 0, and the
-   rest of the field is decoded as objects *)
-Definition witness_zero_read_uleb : script := [([129; 128], false); ([], false); ([128; 0; 154; 155], false)].
-(* one byte per call, the last one with io.EOF, inside a 2-byte field: an error *)
-Definition witness_data_eof_field : script := [([129], false); ([0], false); ([106], false); ([1], false); ([2], true)].
-
-Lemma refute_data_eof :
-  delivers witness_data_eof [129; 0; 1] /\
-  decode_stream default_maxdoc witness_data_eof <> decode_mem default_maxdoc [129; 0; 1].
-Proof. split; [split; reflexivity|]. vm_compute. discriminate. Qed.
-
-Lemma refute_zero_read :
-  delivers witness_zero_read [129; 0; 1] /\
-  decode_stream default_maxdoc witness_zero_read <> decode_mem default_maxdoc [129; 0; 1].
-Proof. split; [split; reflexivity|]. vm_compute. discriminate. Qed.
-
-Lemma refute_zero_read_uleb :
-  delivers witness_zero_read_uleb [129; 128; 128; 0; 154; 155] /\
-  decode_stream default_maxdoc witness_zero_read_uleb <> decode_mem default_maxdoc [129; 128; 128; 0; 154; 155].
-Proof. split; [split; reflexivity|]. vm_compute. discriminate. Qed.
-
-Lemma refute_data_eof_field :
-  delivers witness_data_eof_field [129; 0; 106; 1; 2] /\
-  decode_stream default_maxdoc witness_data_eof_field <> decode_mem default_maxdoc [129; 0; 106; 1; 2].
-Proof. split; [split; reflexivity|]. vm_compute. discriminate. Qed.
-
-(* the same through the universal entry point: bufio hides data+EOF for small
-   reads but passes (0, nil) on *)
-Lemma refute_zero_read_universal :
-  match peek_init witness_zero_read with
-  | Some s => cbe_decode_src default_maxdoc s <> decode_mem default_maxdoc [129; 0; 1]
-  | None => False
-  end.
-Proof. vm_compute. discriminate. Qed.
-
-Lemma good_excludes sc :
-  good_script sc = true -> has_zero_read sc = false /\ has_data_eof sc = false.
-Proof.
-  induction sc as [|[bs e] rest IH]; [auto|]. intro H.
-  apply good_script_cases in H as [(-> & -> & ->) | (-> & Hb & Hr)]; [auto|].
-  destruct (IH Hr) as [Z D]. unfold has_zero_read, has_data_eof in *. simpl.
-  destruct bs; [congruence|]. simpl. auto.
-Qed.
+(* the exclusion of ce_stream_all is real: 100 empty reads in front make
+   bufio.Reader.Peek give up, while the CBE entry point reads on *)
+Lemma ce_zero_reads_refuted :
+  let sc := repeat (([] : bytes), false) 100 ++ [([129; 0; 1], false)] in
+  script_wf sc = true /\ script_data sc = [129; 0; 1] /\ peek_init sc = None /\
+  snd (decode_stream 5368709120 sc) = SOk.
+Proof. vm_compute. auto. Qed.
 
 (* ------------------------------------------------------------------ *)
 (* statements as used by Props/C28.v                                    *)
@@ -781,30 +742,9 @@ Qed.
 Lemma delivers_eof_last sc d : delivers sc d -> eof_last sc = true.
 Proof. intros [H _]. unfold script_wf in H. now apply andb_true_iff in H as [H _]. Qed.
 
-Lemma stream_eq_memory_partial :
-  forall maxdoc sc d, delivers sc d -> good_script sc = true ->
-    decode_stream maxdoc sc = decode_mem maxdoc d.
-Proof. intros maxdoc sc d [_ Hd] Hg. now apply decode_stream_good. Qed.
-
-Lemma stream_eq_memory_refuted :
-  ~ (forall maxdoc sc d, delivers sc d -> decode_stream maxdoc sc = decode_mem maxdoc d).
-Proof. intro H. destruct refute_data_eof as [Hd Hn]. apply Hn, H, Hd. Qed.
-
-Lemma stream_eq_memory_refuted_data_eof :
-  exists maxdoc sc d, delivers sc d /\ has_zero_read sc = false /\
-    decode_stream maxdoc sc <> decode_mem maxdoc d.
-Proof.
-  exists default_maxdoc, witness_data_eof, [129; 0; 1].
-  destruct refute_data_eof as [Hd Hn]. repeat split; try apply Hd. exact Hn.
-Qed.
-
-Lemma stream_eq_memory_refuted_zero_read :
-  exists maxdoc sc d, delivers sc d /\ has_data_eof sc = false /\
-    decode_stream maxdoc sc <> decode_mem maxdoc d.
-Proof.
-  exists default_maxdoc, witness_zero_read, [129; 0; 1].
-  destruct refute_zero_read as [Hd Hn]. repeat split; try apply Hd. exact Hn.
-Qed.
+Lemma stream_eq_memory :
+  forall maxdoc sc d, delivers sc d -> decode_stream maxdoc sc = decode_mem maxdoc d.
+Proof. intros maxdoc sc d H. apply decode_stream_all; [now apply (delivers_eof_last sc d) | apply H]. Qed.
 
 Lemma cte_stream_eq_memory :
   forall (R : Type) (cte_parse : bytes -> outcome R) sc d,
@@ -815,17 +755,30 @@ Qed.
 
 Lemma ce_stream_eq_memory_partial :
   forall (R : Type) maxdoc (cte_parse : bytes -> outcome R) (cbe_build : result -> outcome R) sc d,
-    delivers sc d -> good_script sc = true ->
+    delivers sc d -> (script_zeros sc < 100)%nat ->
     ce_stream maxdoc cte_parse cbe_build sc = ce_mem maxdoc cte_parse cbe_build d.
-Proof. intros R maxdoc cte_parse cbe_build sc d [_ Hd] Hg. now apply ce_stream_good. Qed.
+Proof.
+  intros R maxdoc cte_parse cbe_build sc d H Hz.
+  apply ce_stream_all; [now apply (delivers_eof_last sc d) | exact Hz | apply H].
+Qed.
+
+Lemma ce_stream_zero_reads_refuted :
+  exists sc d, delivers sc d /\ (script_zeros sc = 100)%nat /\
+    ce_stream 5368709120 (fun _ => Err) (fun r : result => Ok r) sc
+    <> ce_mem 5368709120 (fun _ => Err) (fun r : result => Ok r) d.
+Proof.
+  exists (repeat (([] : bytes), false) 100 ++ [([129; 0; 1], false)]), [129; 0; 1].
+  split; [split; vm_compute; reflexivity|]. split; [vm_compute; reflexivity|].
+  vm_compute. discriminate.
+Qed.
 
 (* ------------------------------------------------------------------ *)
-(* the fuel is never exhausted                                          *)
+(* the fuel is never exhausted (any source, well-formed or not)         *)
 (* ------------------------------------------------------------------ *)
 
-Definition smu (s : rstate) : nat := mu (s_src s).
+Definition smu (s : rstate) : nat := length (src_data (s_src s)).
 
-(* below the bound n: no Stuck, and the measure does not grow (P) / shrinks (Q) *)
+(* below the bound n: no Stuck, and the data left does not grow (P) / shrinks (Q) *)
 Definition P (n : nat) {A} (m : M A) : Prop :=
   forall s, (smu s < n)%nat ->
     match m s with Ret _ s' => (smu s' <= smu s)%nat | Fail _ => True | Stuck => False end.
@@ -846,10 +799,10 @@ Lemma P_ev n e : P n (ev e).
 Proof. apply P_emit. Qed.
 Lemma P_get_b0 n : P n get_b0.
 Proof. intros s _. simpl. lia. Qed.
+Lemma P_set_b0 n x : P n (set_b0 x).
+Proof. intros s _. unfold set_b0, smu. simpl. lia. Qed.
 Lemma P_get_fuel n : P n get_fuel.
 Proof. intros s _. simpl. lia. Qed.
-Lemma P_mark n maxdoc k : P n (mark maxdoc k).
-Proof. intros s _. unfold mark. destruct (_ <? _); [exact I|]. unfold smu; simpl. lia. Qed.
 
 Lemma P_bind n {A B} (m : M A) (f : A -> M B) :
   P n m -> (forall a, P n (f a)) -> P n (bind m f).
@@ -876,111 +829,109 @@ Proof.
   specialize (Hf a s' ltac:(lia)). destruct (f a s'); auto. lia.
 Qed.
 
-Lemma P_weaken n n' {A} (m : M A) : (n' <= n)%nat -> P n m -> P n' m.
-Proof. intros Hle H s Hs. apply H. lia. Qed.
-
-Lemma rd1_spec s :
-  exists got e s', rd1 s = Ret (got, e) s' /\ (smu s' <= smu s)%nat /\
-    (got = true \/ e = false -> (smu s' < smu s)%nat).
-Proof.
-  unfold rd1. pose proof (rd_gen 1 (s_src s) ltac:(lia)) as G.
-  destruct (rd 1 (s_src s)) as [[bs e] s']. destruct G as (Hd & Hz & _ & Hp).
-  destruct bs as [|x bs].
-  - exists false, e, (mkst s' (s_b0 s) (s_cnt s) (s_out s)). split; [reflexivity|].
-    unfold smu, mu; simpl. rewrite Hd. simpl. split; [lia|].
-    intros [Hx|He]; [discriminate|]. specialize (Hp He eq_refl). lia.
-  - exists true, e, (mkst s' x (s_cnt s) (s_out s)). split; [reflexivity|].
-    unfold smu, mu; simpl. rewrite Hd. simpl. rewrite app_length. lia.
-Qed.
-
-Lemma P_rd1 n : P n rd1.
-Proof. intros s _. destruct (rd1_spec s) as (g & e & s' & -> & H & _). exact H. Qed.
-
-Lemma rd1x_spec maxdoc s :
-  match rd1x maxdoc s with
-  | Ret r s' => (smu s' <= smu s)%nat /\ (fst r = true \/ snd r = false -> (smu s' < smu s)%nat)
-  | Fail _ => True
-  | Stuck => False
-  end.
-Proof.
-  unfold rd1x, bind. destruct (rd1_spec s) as (g & e & s' & -> & H1 & H2).
-  unfold mark. destruct (_ <? _); [exact I|]. simpl. unfold smu in *; simpl. auto.
-Qed.
-
-Lemma P_rd1x n maxdoc : P n (rd1x maxdoc).
-Proof. intros s _. pose proof (rd1x_spec maxdoc s) as H. destruct (rd1x maxdoc s); auto. apply H. Qed.
-
-(* r <- read ;; if io.EOF then fail else ...: success means progress *)
-Lemma Q_rd1_guard n {B} (k : bool * bool -> M B) :
-  (forall r, P n (k r)) -> Q n (bind rd1 (fun r => if snd r then fail else k r)).
-Proof.
-  intros Hk s Hs. unfold bind. destruct (rd1_spec s) as (g & e & s' & -> & H1 & H2).
-  simpl. destruct e; [exact I|]. specialize (H2 (or_intror eq_refl)).
-  specialize (Hk (g, false) s' ltac:(lia)). destruct (k (g, false) s'); auto. lia.
-Qed.
-
-Lemma Q_rd1x_guard n maxdoc {B} (k : bool * bool -> M B) :
-  (forall r, P n (k r)) -> Q n (bind (rd1x maxdoc) (fun r => if snd r then fail else k r)).
-Proof.
-  intros Hk s Hs. unfold bind. pose proof (rd1x_spec maxdoc s) as H.
-  destruct (rd1x maxdoc s) as [[g e] s'|s'|]; auto. simpl in *. destruct H as [H1 H2].
-  destruct e; [exact I|]. specialize (H2 (or_intror eq_refl)).
-  specialize (Hk (g, false) s' ltac:(lia)). destruct (k (g, false) s'); auto. lia.
-Qed.
-
-Lemma fill_loop_total fuel : forall need s,
-  1 <= need -> (mu s < fuel)%nat ->
-  match fill_loop fuel need s with
-  | None => False
-  | Some None => True
-  | Some (Some (_, s')) => (mu s' <= mu s)%nat
-  end.
-Proof.
-  induction fuel as [|f IH]; intros need s Hn Hf; [lia|]. simpl.
-  pose proof (rd_mu need s Hn) as U. pose proof (rd_gen need s Hn) as G.
-  destruct (rd need s) as [[bs e] s']. destruct U as [U1 U2], G as (_ & _ & Hl & _).
-  destruct e; [exact I|]. specialize (U2 eq_refl).
-  destruct (N.leb_spec need (lenN bs)); [exact U1|].
-  specialize (IH (need - lenN bs) s' ltac:(lia) ltac:(lia)).
-  destruct (fill_loop f (need - lenN bs) s') as [[[more s'']|]|]; auto. lia.
-Qed.
-
-Lemma P_fill n at0 need : P n (fill at0 need).
-Proof.
-  intros s _. unfold fill. destruct (need =? 0) eqn:E; [simpl; lia|].
-  apply N.eqb_neq in E.
-  pose proof (fill_loop_total (src_fuel (s_src s)) need (s_src s) ltac:(lia)
-                ltac:(unfold mu, src_fuel; lia)) as H.
-  destruct (fill_loop _ need (s_src s)) as [[[bs s']|]|]; auto.
-Qed.
-
-#[export] Hint Resolve P_ret P_fail P_emit P_ev P_get_b0 P_get_fuel P_mark P_rd1 P_rd1x P_fill : pdb.
-
-Ltac p_go :=
-  repeat first
-    [ solve [auto 2 with pdb]
-    | apply P_bind; [ | intros ]
-    | match goal with |- P _ (if ?c then _ else _) => destruct c end
-    | match goal with |- P _ (match ?x with _ => _ end) => destruct x end
-    | match goal with |- P _ (let '(_, _) := ?p in _) => destruct p end ].
-
 Section NoHang.
   Variable maxdoc : N.
 
+  (* Reader.Read on any source: never stuck; bytes come off the front of the
+     data; an empty result means io.EOF *)
+  Lemma nrd_total cap s :
+    1 <= cap ->
+    match nrd maxdoc cap s with
+    | Ret (bs, e) s' => src_data (s_src s) = bs ++ src_data (s_src s') /\ (bs = [] <-> e = true)
+    | Fail _ => True
+    | Stuck => False
+    end.
+  Proof.
+    intro Hcap. unfold nrd. destruct (s_pend s).
+    - split; [reflexivity | tauto].
+    - destruct (skip_zeros_spec (S (src_zeros (s_src s))) cap (s_src s) Hcap ltac:(lia))
+        as (bs & e & s' & -> & Hd & _ & Hn & _).
+      destruct bs as [|x bs].
+      + simpl. split; [exact Hd | tauto].
+      + destruct (maxdoc <? s_cnt s + lenN (x :: bs)); [exact I|]. simpl.
+        split; [exact Hd|]. split; discriminate.
+  Qed.
+
+  Lemma rd1_spec s :
+    match rd1 maxdoc s with
+    | Ret r s' => (smu s' <= smu s)%nat /\ (fst r = true \/ snd r = false -> (smu s' < smu s)%nat)
+    | Fail _ => True
+    | Stuck => False
+    end.
+  Proof.
+    unfold rd1, bind. pose proof (nrd_total 1 s ltac:(lia)) as H.
+    destruct (nrd maxdoc 1 s) as [[bs e] s'|s'|]; auto. destruct H as [Hd He]. cbn [fst snd].
+    destruct bs as [|x bs].
+    - simpl. unfold smu. rewrite Hd. simpl. split; [lia|].
+      intros [Hx|Hx]; [discriminate|]. destruct He as [He _]. rewrite (He eq_refl) in Hx. discriminate.
+    - unfold bind, set_b0, ret. simpl. unfold smu; simpl. rewrite Hd. simpl. rewrite app_length. lia.
+  Qed.
+
+  Lemma P_rd1 n : P n (rd1 maxdoc).
+  Proof. intros s _. pose proof (rd1_spec s) as H. destruct (rd1 maxdoc s); auto. apply H. Qed.
+
+  (* r <- read ;; if io.EOF then fail else ...: success means progress *)
+  Lemma Q_rd1_guard n {B} (k : bool * bool -> M B) :
+    (forall r, P n (k r)) -> Q n (bind (rd1 maxdoc) (fun r => if snd r then fail else k r)).
+  Proof.
+    intros Hk s Hs. unfold bind. pose proof (rd1_spec s) as H.
+    destruct (rd1 maxdoc s) as [[g e] s'|s'|]; auto. simpl in *. destruct H as [H1 H2].
+    destruct e; [exact I|]. specialize (H2 (or_intror eq_refl)).
+    specialize (Hk (g, false) s' ltac:(lia)). destruct (k (g, false) s'); auto. lia.
+  Qed.
+
+  Lemma P_fill_loop f : forall need, 1 <= need -> P f (fill_loop maxdoc f need).
+  Proof.
+    induction f as [|f IH]; intros need Hn s Hs; [lia|].
+    rewrite fill_loop_S. pose proof (nrd_total need s Hn) as H.
+    destruct (nrd maxdoc need s) as [[bs e] s'|s'|]; auto. destruct H as [Hd He]. cbn [fst snd].
+    destruct e; [exact I|].
+    assert (Hb : bs <> []) by (intro E; apply He in E; discriminate).
+    assert (Hlt : (smu s' < smu s)%nat).
+    { unfold smu. rewrite Hd, app_length. destruct bs; [congruence|]. simpl. lia. }
+    destruct (N.leb_spec need (lenN bs)); [simpl; lia|].
+    unfold bind. specialize (IH (need - lenN bs) ltac:(lia) s' ltac:(lia)).
+    destruct (fill_loop maxdoc f (need - lenN bs) s') as [more s''|s''|]; auto. simpl. lia.
+  Qed.
+
+  Lemma P_fill_tail n at0 bs : P n (fill_tail at0 bs).
+  Proof.
+    unfold fill_tail. apply P_bind; [|intros; apply P_ret].
+    destruct at0; [|apply P_ret]. destruct bs; [apply P_ret | apply P_set_b0].
+  Qed.
+
+  Lemma P_fill n at0 need : P n (fill maxdoc at0 need).
+  Proof.
+    intros s Hs. destruct (N.eqb_spec need 0) as [->|Hn]; [simpl; lia|].
+    rewrite fill_eq by exact Hn.
+    pose proof (P_fill_loop (dec_fuel (s_src s)) need ltac:(lia) s ltac:(unfold smu, dec_fuel; lia)) as H.
+    destruct (fill_loop maxdoc (dec_fuel (s_src s)) need s) as [bs s'|s'|]; auto.
+    pose proof (P_fill_tail (S (smu s')) at0 bs s' ltac:(lia)) as T.
+    destruct (fill_tail at0 bs s'); auto. lia.
+  Qed.
+
+  Hint Resolve P_ret P_fail P_emit P_ev P_get_b0 P_set_b0 P_get_fuel P_rd1 P_fill : pdb.
+
+  Ltac p_go :=
+    repeat first
+      [ solve [auto 2 with pdb]
+      | apply P_bind; [ | intros ]
+      | match goal with |- P _ (if ?c then _ else _) => destruct c end
+      | match goal with |- P _ (match ?x with _ => _ end) => destruct x end
+      | match goal with |- P _ (let '(_, _) := ?p in _) => destruct p end ].
+
   Lemma P_read_u8 n : P n (read_u8 maxdoc).
   Proof. unfold read_u8. p_go. Qed.
-  Lemma P_fill_mark n at0 k : P n (fill_mark maxdoc at0 k).
-  Proof. unfold fill_mark. p_go. Qed.
   Lemma P_read_bytes n k : P n (read_bytes maxdoc k).
-  Proof. apply P_fill_mark. Qed.
-  Hint Resolve P_read_u8 P_fill_mark P_read_bytes : pdb.
+  Proof. apply P_fill. Qed.
+  Hint Resolve P_read_u8 P_read_bytes : pdb.
 
   Lemma P_uleb_loop f : forall acc shift k, P f (uleb_loop maxdoc f acc shift k).
   Proof.
     induction f as [|f IH]; intros acc shift k; [intros s Hs; lia|].
     intros s Hs. cbn [uleb_loop]. unfold bind at 1.
-    pose proof (rd1x_spec maxdoc s) as H.
-    destruct (rd1x maxdoc s) as [[g e] s'|s'|]; auto. cbn [fst snd] in H.
+    pose proof (rd1_spec s) as H.
+    destruct (rd1 maxdoc s) as [[g e] s'|s'|]; auto. cbn [fst snd] in H.
     destruct H as [H1 H2]. destruct g; cbn [fst snd negb].
     - specialize (H2 (or_introl eq_refl)). unfold bind, get_b0.
       destruct (N.testbit (s_b0 s') 7).
@@ -994,12 +945,12 @@ Section NoHang.
     P n (bind get_fuel (fun fuel => uleb_loop maxdoc fuel acc shift k)).
   Proof.
     intros s _. unfold bind, get_fuel.
-    apply (P_uleb_loop (src_fuel (s_src s))). unfold smu, mu, src_fuel. lia.
+    apply (P_uleb_loop (dec_fuel (s_src s))). unfold smu, dec_fuel. lia.
   Qed.
   Hint Resolve P_uleb_tail : pdb.
 
   Lemma Q_uleb n : Q n (uleb maxdoc).
-  Proof. unfold uleb. apply Q_rd1x_guard. intro r. p_go. Qed.
+  Proof. unfold uleb. apply Q_rd1_guard. intro r. p_go. Qed.
 
   Lemma Q_small_uleb n maxv : Q n (small_uleb maxdoc maxv).
   Proof. unfold small_uleb. apply Q_bind_l; [apply Q_uleb|]. intro u. p_go. Qed.
@@ -1060,10 +1011,9 @@ Section NoHang.
     | Stuck => False
     end.
   Proof.
-    unfold read_type_or_eof, bind. destruct (rd1_spec s) as (g & e & s' & -> & H1 & H2).
-    cbn [snd]. destruct e; [exact H1|]. specialize (H2 (or_intror eq_refl)).
-    unfold mark. destruct (maxdoc <? (s_cnt s' + 1) mod two64); [exact I|].
-    unfold get_b0, ret, smu in *. simpl. exact H2.
+    unfold read_type_or_eof, bind. pose proof (rd1_spec s) as H.
+    destruct (rd1 maxdoc s) as [[g e] s'|s'|]; auto. cbn [fst snd] in *. destruct H as [H1 H2].
+    destruct e; [exact H1|]. unfold get_b0, ret. exact (H2 (or_intror eq_refl)).
   Qed.
 
   Lemma P_main_loop f : P f (main_loop maxdoc f).
@@ -1078,25 +1028,30 @@ Section NoHang.
   Qed.
 
   Lemma decode_doc_not_stuck s0 :
-    (smu s0 < src_fuel (s_src s0))%nat -> decode_doc maxdoc (src_fuel (s_src s0)) s0 <> Stuck.
+    decode_doc maxdoc (dec_fuel (s_src s0)) s0 <> Stuck.
   Proof.
-    intros Hs E.
-    assert (H : P (src_fuel (s_src s0)) (decode_doc maxdoc (src_fuel (s_src s0)))).
+    intro E.
+    assert (H : P (dec_fuel (s_src s0)) (decode_doc maxdoc (dec_fuel (s_src s0)))).
     { unfold decode_doc. p_go. apply P_main_loop. }
-    specialize (H s0 Hs). rewrite E in H. exact H.
+    specialize (H s0 ltac:(unfold smu, dec_fuel; lia)). rewrite E in H. exact H.
   Qed.
 
-  (* no script whatsoever (good or not, buffered or not) exhausts the model's fuel *)
+  (* no script whatsoever (a reader or not, buffered or not) exhausts the model's fuel *)
   Theorem decode_never_hangs s : snd (cbe_decode_src maxdoc s) <> SHang.
   Proof.
     unfold cbe_decode_src.
-    pose proof (decode_doc_not_stuck (mkst s 0 0 []) ltac:(unfold smu, mu, src_fuel; simpl; lia)) as H.
-    simpl in H. destruct (decode_doc maxdoc (src_fuel s) (mkst s 0 0 [])); simpl; congruence.
+    pose proof (decode_doc_not_stuck (mkst s false 0 0 [])) as H.
+    simpl in H. destruct (decode_doc maxdoc (dec_fuel s) (mkst s false 0 0 [])); simpl; congruence.
   Qed.
 End NoHang.
 
-Lemma copy_never_hangs sc : eof_last sc = true -> copy_all (Direct sc) <> None.
-Proof. intro H. rewrite (copy_all_wf (Direct sc) H). discriminate. Qed.
-
 Lemma stream_never_hangs : forall maxdoc sc, snd (decode_stream maxdoc sc) <> SHang.
 Proof. intros maxdoc sc. apply decode_never_hangs. Qed.
+
+Lemma ce_full_refuted :
+  ~ (forall (R : Type) maxdoc (cte_parse : bytes -> outcome R) (cbe_build : result -> outcome R) sc d,
+       delivers sc d ->
+       ce_stream maxdoc cte_parse cbe_build sc = ce_mem maxdoc cte_parse cbe_build d).
+Proof.
+  intro H. destruct ce_stream_zero_reads_refuted as (sc & d & Hd & _ & Hn). apply Hn, H, Hd.
+Qed.
